@@ -59,6 +59,10 @@ let () =
       (match UmlBlob.load_cdiagram (Cmds_vpp.db d) (str n) with None -> L [] | Some r -> L [vrdiagram r]) | _ -> failwith "arity");
   register "ub_adaptor" (function [d; n] ->
       (match UmlBlob.adaptor (Cmds_vpp.db d) (str n) with None -> L [] | Some c -> L [vcdiagram c]) | _ -> failwith "arity");
+  register "ub_adaptor_cs" (function [d; n] ->
+      (match UmlBlob.adaptor_cs (Cmds_vpp.db d) (str n) with None -> L [] | Some c -> L [vcdiagram c]) | _ -> failwith "arity");
+  register "ub_type_and_name_cs" (function [t; m; mu; n] ->
+      let (a, b) = UmlBlob.type_and_name_cs (str t) (str m) (str mu) (str n) in L [S a; S b] | _ -> failwith "arity");
   register "ub_type_and_name" (function [t; m; mu; n] ->
       let (a, b) = UmlBlob.type_and_name (str t) (str m) (str mu) (str n) in L [S a; S b] | _ -> failwith "arity");
   register "ub_default" (function [m; mu; d] -> S (UmlBlob.default_format (str m) (str mu) (str d)) | _ -> failwith "arity");
